@@ -52,7 +52,7 @@ def all_harnesses():
                 for ai, ab in enumerate(((False, True, False), (True, True, False), (False, False, True), (True, False, True))):
                     add(f"c12_burst_c{cap}_s{si}_t{ti}_a{ai}", f"crate::c12::burst_tagger(3, {cap}, {rs3(s)}, 6, {rl(tp)}, &[{', '.join(str(x).lower() for x in ab)}])",
                         "BurstTagger::work", {"block": "BurstTagger", "cap": cap, "schedule": s, "tags": tp, "above_threshold": list(ab)},
-                        cap == 2 and si == 1 and ti == 1 and ai in (0, 3))
+                        False)
     for cap in (3, 4):
         for (d0, d1) in ((2, 1), (2, 0), (1, 0)):
             for fi, fd in enumerate(([(cap, cap)], [(1, cap), (1, cap), (1, cap)], [(2, 0), (1, 1)])):
